@@ -73,19 +73,22 @@ def rule_a(ctx, cr):
               "symbol data address gets + data offset",
               "the imported data address is not re-based by data.len(): RESTORE n would point "
               "into the wrong part of the data segment")
-    ctx.check(len(has(r"var:symbol|Iterator>::next", sym)) == 3, "C20.a",
-              "append/local-symbols-rebased", f.span,
-              "local symbols of symbols/unlinked/whiles get + symbol offset")
-    # only negative symbols are shifted
+    shifts = has(r".", sym)          # every `x + current_symbol`, whatever x is called
+    ctx.check(len(shifts) == 3, "C20.a", "append/local-symbols-rebased", f.span,
+              "local symbols of symbols/unlinked/whiles get + symbol offset",
+              "%d additions of the symbol offset (expected 3: symbols, unlinked, whiles)"
+              % len(shifts))
+    # only negative symbols are shifted: symbols and unlinked can hold line numbers and need the
+    # `< 0` guard; WHILE/WEND labels are always local
     neg = 0
-    for b, l, r, sp in has(r"var:symbol", sym):
-        for op, lo, ro, truth in f.cmp_conds_at(b):
-            if op == "Lt" and truth and f.describe(ro) == "const:0":
-                neg += 1
-    ctx.check(neg == 2, "C20.a", "append/line-symbols-untouched", f.span,
+    for b, l, r, sp in shifts:
+        if any(op == "Lt" and truth and f.describe(ro) == "const:0"
+               for op, lo, ro, truth in f.cmp_conds_at(b)):
+            neg += 1
+    ctx.check(neg >= 2, "C20.a", "append/line-symbols-untouched", f.span,
               "symbol shifting is guarded by `symbol < 0` (line numbers are global)",
-              "the `symbol < 0` guard is missing on %d of 2 shifts: line numbers would be offset"
-              % (2 - neg))
+              "the `symbol < 0` guard is missing on %d of the 2 shifts that can meet a line "
+              "number: line numbers would be offset" % (2 - neg))
     ins = f.calls_matching(r"BTreeMap::<K, V, A>::insert$")
     ctx.check(len(ins) == 1 and ".symbols" in f.describe(ins[0].args[0]), "C20.a",
               "append/symbols-merged", f.span, "imported symbols are merged into the table")
